@@ -50,8 +50,10 @@ int main(int argc, char *argv[]) {
       hexsim::Processor processor(std::cin, std::cout, maxCycles);
       processor.setTracing(trace);
       processor.load("a.bin");
-      processor.run();
+      return processor.run();
     }
+    // Compilation failed (the error has been reported).
+    return 1;
   } catch (const std::exception &e) {
     std::cerr << boost::format("Error: %s\n") % e.what();
     return 1;
